@@ -27,11 +27,11 @@ use rumqttd::verif::{verif_remote, Event, VerifWillHandlers};
 use rumqttd::{ConnectionId, ConnectionSettings, Router, RouterConfig};
 use std::future::Future;
 use std::pin::Pin;
-use std::sync::atomic::{AtomicBool, Ordering};
+use std::sync::atomic::{AtomicBool, AtomicU64, Ordering};
 use std::sync::{Arc, Mutex};
 use std::task::{Context, Poll};
-use std::time::Duration;
-use tokio::io::{AsyncReadExt, AsyncWriteExt, DuplexStream};
+use std::time::{Duration, Instant};
+use tokio::io::{AsyncRead, AsyncReadExt, AsyncWriteExt, DuplexStream};
 use tokio::task::JoinHandle;
 
 /// Generous real-time limit for any single wait. Expiry = inconclusive, never a violation.
@@ -78,6 +78,41 @@ pub struct RouterThread {
     stop: Arc<AtomicBool>,
     failure: Arc<Mutex<Option<Failure>>>,
     handle: Option<std::thread::JoinHandle<()>>,
+    pub probe: RouterProbe,
+}
+
+/// What the router thread publishes about its own progress (read by the quiescence detector,
+/// see `Stack::quiet_probe`). Every iteration of the loop ends with exactly one update: a
+/// non-idle iteration resets `idle_streak` and then increments `busy`, an idle one increments
+/// `idle_streak`. Nothing here influences the router.
+#[derive(Clone, Default)]
+pub struct RouterProbe {
+    /// idle iterations (`verif_turn()` returned false = production would block in `recv()`)
+    /// completed since the last non-idle one
+    idle_streak: Arc<AtomicU64>,
+    /// non-idle iterations completed so far
+    busy: Arc<AtomicU64>,
+    /// non-idle iterations after which some connection was parked as busy, i.e. the router had
+    /// sent `Notification::Unschedule` and was waiting for the link's `Event::Ready` (counted
+    /// only when the thread was started with `watch_pauses`; evidence, never asserted on)
+    busy_pauses: Arc<AtomicU64>,
+    /// set while the detector waits for the router (pacing only, never a correctness signal):
+    /// the idle pause is skipped until `idle_streak` reaches `wake_at`, and the waiting case
+    /// thread is unparked then and after every non-idle iteration
+    hurry: Arc<AtomicBool>,
+    wake_at: Arc<AtomicU64>,
+    /// the thread has left its loop (stop flag or panic of the router)
+    exited: Arc<AtomicBool>,
+}
+
+impl RouterProbe {
+    /// iterations after which a connection was waiting for `Event::Ready`
+    pub fn busy_pauses(&self) -> u64 {
+        self.busy_pauses.load(Ordering::SeqCst)
+    }
+    pub fn busy_turns(&self) -> u64 {
+        self.busy.load(Ordering::SeqCst)
+    }
 }
 
 pub fn router_config() -> RouterConfig {
@@ -94,11 +129,20 @@ pub fn router_config() -> RouterConfig {
 
 impl RouterThread {
     pub fn start(config: RouterConfig) -> (RouterThread, RouterTx) {
+        RouterThread::start_probed(config, false)
+    }
+
+    /// `watch_pauses`: after every non-idle iteration look (read-only `verif_snapshot`) whether a
+    /// connection is parked as busy and count it in `RouterProbe::busy_pauses`
+    pub fn start_probed(config: RouterConfig, watch_pauses: bool) -> (RouterThread, RouterTx) {
         let mut router = Router::new(0, config);
         let tx = router.verif_link();
         let stop = Arc::new(AtomicBool::new(false));
         let failure = Arc::new(Mutex::new(None));
-        let (stop2, failure2) = (stop.clone(), failure.clone());
+        let probe = RouterProbe::default();
+        let (stop2, failure2, probe2) = (stop.clone(), failure.clone(), probe.clone());
+        // the thread that runs the case body (and blocks in `Stack::quiet_probe`)
+        let case_thread = std::thread::current();
         let handle = std::thread::Builder::new()
             .name("e5-router".into())
             .spawn(move || {
@@ -106,11 +150,31 @@ impl RouterThread {
                 while !stop2.load(Ordering::Acquire) {
                     // one iteration of the production loop body
                     match guard("router_thread", || router.verif_turn()) {
-                        Ok(true) => idle = 0,
+                        Ok(true) => {
+                            idle = 0;
+                            if watch_pauses && router.verif_snapshot().connections.iter().any(|c| c.status == "busy") {
+                                probe2.busy_pauses.fetch_add(1, Ordering::SeqCst);
+                            }
+                            // whatever this iteration did (signals to links included) happened
+                            // before the increment becomes visible
+                            probe2.idle_streak.store(0, Ordering::SeqCst);
+                            probe2.busy.fetch_add(1, Ordering::SeqCst);
+                            if probe2.hurry.load(Ordering::SeqCst) {
+                                case_thread.unpark();
+                            }
+                        }
                         Ok(false) => {
                             // production would block in recv() here
-                            idle += 1;
-                            if idle < 64 {
+                            idle = idle.saturating_add(1);
+                            let streak = probe2.idle_streak.fetch_add(1, Ordering::SeqCst) + 1;
+                            let wake_at = probe2.wake_at.load(Ordering::SeqCst);
+                            if probe2.hurry.load(Ordering::SeqCst) && streak <= wake_at {
+                                // the detector counts idle iterations (some microseconds)
+                                if streak == wake_at {
+                                    case_thread.unpark();
+                                }
+                                std::hint::spin_loop();
+                            } else if idle < 64 {
                                 std::thread::yield_now();
                             } else {
                                 std::thread::sleep(Duration::from_micros(50));
@@ -124,10 +188,11 @@ impl RouterThread {
                         }
                     }
                 }
+                probe2.exited.store(true, Ordering::SeqCst);
                 drop(router);
             })
             .expect("router thread");
-        (RouterThread { stop, failure, handle: Some(handle) }, tx)
+        (RouterThread { stop, failure, handle: Some(handle), probe }, tx)
     }
 
     pub fn failure(&self) -> Option<Failure> {
@@ -159,11 +224,14 @@ impl Drop for RouterThread {
 
 struct Guarded<F> {
     inner: Pin<Box<F>>,
+    /// number of times any connection task of this case was polled (quiescence detector)
+    polls: Arc<AtomicU64>,
 }
 
 impl<F: Future<Output = ()>> Future for Guarded<F> {
     type Output = Result<(), Failure>;
     fn poll(mut self: Pin<&mut Self>, cx: &mut Context<'_>) -> Poll<Self::Output> {
+        self.polls.fetch_add(1, Ordering::SeqCst);
         let inner = &mut self.inner;
         match guard("connection_task", || inner.as_mut().poll(cx)) {
             Ok(Poll::Ready(())) => Poll::Ready(Ok(())),
@@ -211,11 +279,26 @@ impl Listener {
 
 pub struct Stack {
     pub router_tx: RouterTx,
+    /// progress counters of the router thread of this case
+    pub router: RouterProbe,
+    /// polls of this case's connection tasks so far
+    polls: Arc<AtomicU64>,
+    router_failure: Arc<Mutex<Option<Failure>>>,
 }
 
 pub enum TaskEnd {
     Finished,
     Panicked(Failure),
+}
+
+/// Outcome of `Conn::try_next`
+#[derive(Debug)]
+pub enum Polled {
+    Frame(M),
+    /// the broker has not written (all of) a further frame yet
+    Nothing,
+    /// the broker has closed the stream
+    Closed,
 }
 
 /// Scripted client end of one connection
@@ -240,12 +323,15 @@ impl Stack {
         let cfg = l.settings.clone();
         let tx = self.router_tx.clone();
         let wills = l.wills.clone();
+        let polls = self.polls.clone();
         let task = match l.ver {
             Ver::V4 => tokio::spawn(Guarded {
                 inner: Box::pin(verif_remote(cfg, tx, Box::new(server_end), rumqttd::protocol::v4::V4, wills)),
+                polls,
             }),
             Ver::V5 => tokio::spawn(Guarded {
                 inner: Box::pin(verif_remote(cfg, tx, Box::new(server_end), rumqttd::protocol::v5::V5, wills)),
+                polls,
             }),
         };
         Conn {
@@ -279,6 +365,182 @@ impl Stack {
                 "helper_connection_not_admitted",
                 format!("{name}: plain CONNECT as {client_id:?} answered with {other:?}"),
             ))),
+        }
+    }
+}
+
+// ---------------------------------------------------------------------------------------
+// quiescence detector: deciding "no further frame will come" without a wall clock
+//
+// Who can act in a case: (1) the case body and (2) the connection tasks, all on the ONE thread
+// of the current-thread runtime (a connection task runs only while the body is inside an
+// `.await` that returns to the scheduler), and (3) the router thread. There are no timers that
+// fire within a case (keep-alive 600 s, connection timeout 30 s) and no other threads.
+//
+// Work can be pending in exactly these places:
+//   T1  a connection task is runnable (woken, not yet polled until it is pending again);
+//   T2  the router has a ready connection or an event in its channel;
+//   T3  bytes written by a client that its connection task has not read: the task was woken by
+//       the write, so this is T1 - unless the task is inside a write towards its client;
+//   T4  bytes written towards a client that the client has not read.
+// and it moves only along T1 -> {T2, T4, nothing} (a task runs: it sends events to the router,
+// writes to its client, or finds nothing to do) and T2 -> {T1, nothing} (the router works: it
+// fills a connection's outgoing buffer and signals that task). A connection task that is pending
+// inside a write towards a client that does not read (T4 on ANOTHER connection than the one
+// being waited on) is not work: only that client's next read can move it. So if at one instant
+// there is no T1 and no T2, and no T4 on the stream the body waits on, then nothing will ever be
+// written to that stream again unless a client acts: a frame still owed there is lost for good.
+//
+// One observation (`quiet_probe`) establishes, in this order:
+//   (b) the body yields to the scheduler; one yield polls every runnable connection task (the
+//       scheduler works off its local and its remote queue - up to 61 polls, a case has 2-3
+//       tasks - before it polls the body again). `polls` counts polls of connection tasks:
+//       unchanged over the yields = no task was runnable when the body yielded.
+//   (c) the stream waited on is drained into the client's buffer and that buffer is empty.
+//   (a) `busy` is sampled, then `idle_streak`; the body blocks WITHOUT yielding to the scheduler
+//       (so no connection task can run and no event can be sent) until the streak has grown by
+//       QUIET_IDLE_TURNS + 1 while `busy` still has the sampled value: QUIET_IDLE_TURNS complete
+//       iterations began after the sample, each found the ready queue and the channel empty, and
+//       no non-idle iteration ended in between. The channel is also seen empty from this side.
+// The remaining race is a task that the router woke during its last non-idle iteration (the
+// wake precedes the `busy` increment, which precedes our sample): that task is T1 during (a).
+// Hence (d): quiescent = two consecutive observations with the same token (polls, busy). The
+// second observation begins with yields; a task woken before them is polled there and changes
+// `polls`; a wake after them comes from a non-idle iteration that ends either before the second
+// sample of `busy` (the tokens differ) or after it (`busy` changes before the streak can grow:
+// the loop reads the streak first and `busy` after it). Equal tokens therefore mean: no task
+// ran and the router did nothing between the end of the first observation and the end of the
+// second, and at the end of the second nothing is runnable, the router is idle with an empty
+// channel, and the stream is empty. (A task that stays runnable by re-waking itself - tokio's
+// cooperative budget - is polled in every yield and changes `polls` every time.)
+// If quiescence cannot be established within the watchdog the result is inconclusive.
+
+/// complete idle iterations of the router that one observation waits for (one suffices for the
+/// argument above; the rest is margin. `RouterProbe::hurry` makes them cost some microseconds)
+pub const QUIET_IDLE_TURNS: u64 = 200;
+/// yields to the scheduler at the start of an observation (one suffices, see (b))
+const QUIET_YIELDS: usize = 2;
+
+/// What one observation saw: the number of connection-task polls and of non-idle router
+/// iterations so far
+#[derive(Clone, Copy, PartialEq, Eq, Debug)]
+pub struct QuietToken {
+    polls: u64,
+    busy: u64,
+}
+
+#[derive(Clone, Copy, PartialEq, Eq, Debug)]
+pub enum Probe {
+    /// something moved or is about to: a task ran, the router worked, bytes arrived
+    Activity,
+    /// conditions (a)-(c) held
+    Quiet(QuietToken),
+}
+
+/// Outcome of `Stack::next_or_quiescent`
+#[derive(Debug)]
+pub enum Waited {
+    Frame(M),
+    /// the broker closed the stream
+    Closed,
+    /// the system is quiescent: no further frame will be written to this stream unless a
+    /// client acts
+    Quiescent,
+}
+
+/// clears `RouterProbe::hurry` on every way out of an observation
+struct Hurry<'a>(&'a AtomicBool);
+
+impl Drop for Hurry<'_> {
+    fn drop(&mut self) {
+        self.0.store(false, Ordering::SeqCst);
+    }
+}
+
+impl Stack {
+    /// Events queued in the router's channel (= `Router::verif_pending_events()`, read from the
+    /// sending side of the same channel, so it is current rather than as of the last iteration)
+    pub fn pending_events(&self) -> usize {
+        self.router_tx.len()
+    }
+
+    /// One observation of the quiescence detector on the stream of `c` (see above)
+    pub async fn quiet_probe(&self, c: &mut Conn) -> R<Probe> {
+        // (b) every runnable connection task runs until it is pending
+        let polls0 = self.polls.load(Ordering::SeqCst);
+        for _ in 0..QUIET_YIELDS {
+            tokio::task::yield_now().await;
+        }
+        let polls = self.polls.load(Ordering::SeqCst);
+        if polls != polls0 {
+            return Ok(Probe::Activity);
+        }
+        // (c) nothing readable, nothing half read
+        if c.fill_now().await || !c.rbuf.is_empty() {
+            return Ok(Probe::Activity);
+        }
+        // (a) the router is idle and stays idle while nothing else can run
+        let busy = self.router.busy.load(Ordering::SeqCst);
+        let streak0 = self.router.idle_streak.load(Ordering::SeqCst);
+        self.router.wake_at.store(streak0 + QUIET_IDLE_TURNS + 1, Ordering::SeqCst);
+        self.router.hurry.store(true, Ordering::SeqCst);
+        let _hurry = Hurry(&self.router.hurry);
+        let t0 = Instant::now();
+        loop {
+            let streak = self.router.idle_streak.load(Ordering::SeqCst);
+            if self.router.busy.load(Ordering::SeqCst) != busy {
+                return Ok(Probe::Activity);
+            }
+            if streak > streak0 + QUIET_IDLE_TURNS {
+                break;
+            }
+            // the router unparks this thread when one of the two has happened; the timeout only
+            // bounds the delay after a missed wake-up
+            std::thread::park_timeout(Duration::from_micros(500));
+            if self.router.exited.load(Ordering::SeqCst) {
+                // the router thread is gone; its panic is the verdict of the case
+                return match self.router_failure.lock().unwrap().clone() {
+                    Some(f) => Err(Stop::Fail(f)),
+                    None => Err(Stop::Inconclusive("router thread (stopped)".into())),
+                };
+            }
+            if t0.elapsed() > WATCHDOG {
+                return Err(Stop::Inconclusive("idle router (quiescence detector)".into()));
+            }
+        }
+        if self.pending_events() != 0 {
+            return Ok(Probe::Activity);
+        }
+        Ok(Probe::Quiet(QuietToken { polls, busy }))
+    }
+
+    /// The next frame on `c`, or the verdict that none will come: waits without a wall clock
+    /// until a frame has arrived, the stream is closed, or the system is quiescent (two
+    /// consecutive quiet observations with the same token). What other connections have not
+    /// read yet is deliberately not part of the condition (see T4 above). Watchdog expiry
+    /// (quiescence cannot be established, e.g. on an overloaded machine) is inconclusive.
+    pub async fn next_or_quiescent(&self, c: &mut Conn) -> R<Waited> {
+        let t0 = Instant::now();
+        let mut seen: Option<QuietToken> = None;
+        loop {
+            match c.try_next().await? {
+                Polled::Frame(m) => return Ok(Waited::Frame(m)),
+                Polled::Closed => return Ok(Waited::Closed),
+                Polled::Nothing => {}
+            }
+            match self.quiet_probe(c).await? {
+                Probe::Activity => seen = None,
+                Probe::Quiet(t) if seen == Some(t) => return Ok(Waited::Quiescent),
+                Probe::Quiet(t) => seen = Some(t),
+            }
+            if t0.elapsed() > WATCHDOG {
+                return Err(Stop::Inconclusive(format!(
+                    "frame on {} (neither a frame nor quiescence; {} packets read so far, last: {:?})",
+                    c.name,
+                    c.log.len(),
+                    c.log.last()
+                )));
+            }
         }
     }
 }
@@ -365,18 +627,7 @@ impl Conn {
                     let frame: Vec<u8> = self.rbuf.drain(..n).collect();
                     let m = decode_from_broker(self.ver, &frame)?;
                     self.log.push(m.clone());
-                    if self.auto_ack {
-                        let ack = |pkid: u16| md::Ack { pkid, reason: 0, props: Props::default() };
-                        let reply = match &m {
-                            M::Publish(p) if p.qos == 1 => Some(M::PubAck(ack(p.pkid))),
-                            M::Publish(p) if p.qos == 2 => Some(M::PubRec(ack(p.pkid))),
-                            M::PubRel(a) => Some(M::PubComp(ack(a.pkid))),
-                            _ => None,
-                        };
-                        if let Some(r) = reply {
-                            self.send_packet(&r).await?;
-                        }
-                    }
+                    self.auto_reply(&m).await?;
                     return Ok(Some(m));
                 }
             } else if let Header::Malformed = reference::parse_header(&self.rbuf) {
@@ -408,6 +659,65 @@ impl Conn {
                     )))
                 }
             }
+        }
+    }
+
+    /// The acknowledgement a well-behaved client owes for `m`, when `auto_ack` is set
+    async fn auto_reply(&mut self, m: &M) -> R<()> {
+        if self.auto_ack {
+            let ack = |pkid: u16| md::Ack { pkid, reason: 0, props: Props::default() };
+            let reply = match m {
+                M::Publish(p) if p.qos == 1 => Some(M::PubAck(ack(p.pkid))),
+                M::Publish(p) if p.qos == 2 => Some(M::PubRec(ack(p.pkid))),
+                M::PubRel(a) => Some(M::PubComp(ack(a.pkid))),
+                _ => None,
+            };
+            if let Some(r) = reply {
+                self.send_packet(&r).await?;
+            }
+        }
+        Ok(())
+    }
+
+    /// Moves what the broker has written so far into the read buffer, without waiting and
+    /// without giving the connection tasks a chance to run (the poll is not subject to tokio's
+    /// cooperative budget, so `Pending` really means "the stream is empty"). Returns true once
+    /// the broker side has closed the stream.
+    async fn fill_now(&mut self) -> bool {
+        let Some(io) = self.io.as_mut() else { return true };
+        let mut chunk = [0u8; 8192];
+        loop {
+            let mut rb = tokio::io::ReadBuf::new(&mut chunk);
+            let polled = tokio::task::coop::unconstrained(std::future::poll_fn(|cx| Poll::Ready(Pin::new(&mut *io).poll_read(cx, &mut rb)))).await;
+            match polled {
+                Poll::Pending => return false,
+                Poll::Ready(Ok(())) if !rb.filled().is_empty() => self.rbuf.extend_from_slice(rb.filled()),
+                Poll::Ready(_) => return true,
+            }
+        }
+    }
+
+    /// `next` without waiting: a frame only if the broker has already written all of it
+    pub async fn try_next(&mut self) -> R<Polled> {
+        let closed = self.fill_now().await;
+        match reference::parse_header(&self.rbuf) {
+            Header::Complete { remaining, header_len, .. } if self.rbuf.len() >= remaining + header_len => {
+                let frame: Vec<u8> = self.rbuf.drain(..remaining + header_len).collect();
+                let m = decode_from_broker(self.ver, &frame)?;
+                self.log.push(m.clone());
+                self.auto_reply(&m).await?;
+                Ok(Polled::Frame(m))
+            }
+            Header::Malformed => Err(Stop::Fail(Failure::new(
+                format!("broker_output_not_decodable:{}", self.ver.name()),
+                format!("malformed fixed header {:02x?}", &self.rbuf[..self.rbuf.len().min(16)]),
+            ))),
+            _ if closed && !self.rbuf.is_empty() => Err(Stop::Fail(Failure::new(
+                format!("broker_output_truncated:{}", self.ver.name()),
+                format!("stream ended inside a frame: {:02x?}", &self.rbuf[..self.rbuf.len().min(32)]),
+            ))),
+            _ if closed => Ok(Polled::Closed),
+            _ => Ok(Polled::Nothing),
         }
     }
 
@@ -582,13 +892,30 @@ where
     F: FnOnce(Stack) -> Fut,
     Fut: Future<Output = R<()>>,
 {
-    let (router, router_tx) = RouterThread::start(config);
+    run_case_probed(seed, config, false, body)
+}
+
+/// `run_case_with`; `watch_pauses` as in `RouterThread::start_probed`. The runtime is a
+/// current-thread one: connection tasks run only while the body awaits, which the quiescence
+/// detector (`Stack::quiet_probe`) relies on.
+pub fn run_case_probed<F, Fut>(seed: u64, config: RouterConfig, watch_pauses: bool, body: F) -> Result<(), Stop>
+where
+    F: FnOnce(Stack) -> Fut,
+    Fut: Future<Output = R<()>>,
+{
+    let (router, router_tx) = RouterThread::start_probed(config, watch_pauses);
     let rt = tokio::runtime::Builder::new_current_thread()
         .enable_time()
         .rng_seed(tokio::runtime::RngSeed::from_bytes(&seed.to_le_bytes()))
         .build()
         .expect("runtime");
-    let result = rt.block_on(body(Stack { router_tx }));
+    let stack = Stack {
+        router_tx,
+        router: router.probe.clone(),
+        polls: Arc::new(AtomicU64::new(0)),
+        router_failure: router.failure.clone(),
+    };
+    let result = rt.block_on(body(stack));
     // dropping the runtime drops every connection task (and with them their router senders)
     drop(rt);
     let router_failure = router.shutdown();
